@@ -143,11 +143,27 @@ def _is_one_test(par, n):
     return isinstance(par, ast.Compare) and len(par.ops) == 1 and isinstance(par.ops[0], (ast.Eq, ast.NotEq)) and par.left is n and isinstance(par.comparators[0], ast.Constant) and par.comparators[0].value in (0, 1)
 
 
+# (module suffix, bound with names replaced by what they are, fact that must guard the loop or None) -> reason.
+# Structural keys: neither the name of the enclosing function nor of a variable takes part, so extracting the loop into
+# a helper or renaming keeps the entry, and a different size-bounded loop in the same module does not match it.
 RANGE_TABLE = {
-    ("decomposednamedtensor_from_classical::_ravel", "((tuple((<v>.value for <v> in <loop element>)))[(_expr_to_axis(<loop element>))[0]])"): "length of the bracketed coordinate axis = number of bracketed target axes (fixed by the description through the stage-3 equation), not a data length",
-    ("elementary_from_classical::get_at.get_at", "<loop element>.shape[0]"): "number of coordinate components = number of bracketed target axes (fixed by the description through the stage-3 equation), not a data length",
-    ("elementary_from_classical::update_at.update_at", "<loop element>.shape[0]"): "number of coordinate components = number of bracketed target axes (fixed by the description through the stage-3 equation), not a data length",
+    ("decomposednamedtensor_from_classical", "((tuple((<v>.value for <v> in <loop element>)))[(_expr_to_axis(<loop element>))[0]])", None): "length of the bracketed coordinate axis = number of bracketed target axes (fixed by the description through the stage-3 equation), not a data length",
+    ("elementary_from_classical", "<loop element>.shape[0]", "<loop element>.ndim == 1"): "number of components of a 1-D coordinate vector = number of bracketed target axes (fixed by the description through the stage-3 equation), not a data length",
 }
+
+
+def _range_exempt(f, call, a):
+    key = _anon(f, a)
+    for (mod, ex, guard), reason in RANGE_TABLE.items():
+        if f.module.name.endswith(mod) and key == ex:
+            if guard is None:
+                return reason
+            facts = common.cfg_of(f).guards_of_ast(call)
+            for t, pol in facts:
+                pos = common.as_positive(t, pol)
+                if pos is not None and getattr(t, "_parent", None) is not None and _anon(f, t) == guard and pol:
+                    return reason
+    return None
 
 
 def p_is_local(f, name):
@@ -231,14 +247,14 @@ def r2(p, rep):
                     s = _size_expr(a, _tainted_names(p, f))
                     key = f"{f.qualname}:range({norm(a)[:40]})"
                     if s is not None:
-                        tab = next((r for (q, ex), r in RANGE_TABLE.items() if f.qualname.endswith(q) and _anon(f, a) == ex), None)
+                        tab = _range_exempt(f, n, a)
                         if tab:
                             rep.exempt("C17.R2", key, site, tab)
                         else:
                             rep.violation("C17.R2", key, site, f"`range({norm(a)})` iterates over an axis length while tracing: the number of emitted backend calls grows with the tensor size")
                         continue
                     rl = _rank_like(p, f, a)
-                    tab = next((r for (q, ex), r in RANGE_TABLE.items() if f.qualname.endswith(q) and _anon(f, a) == ex), None)
+                    tab = _range_exempt(f, n, a)
                     if rl is False and tab:
                         rep.exempt("C17.R2", key, site, tab)
                     elif rl is False:
